@@ -9,9 +9,11 @@
 (* C16, scanner part: the callback of the right kind is invoked exactly    *)
 (* once for every entry of the range the matcher selects, never for any    *)
 (* other entry; every fetched entry is processed once; the scan terminates.*)
-(* "Selects" is decided per entry class (ScanSelect.tla): clean / parses    *)
-(* with non-fatal errors only / fatally broken, for X.509 and precert      *)
-(* entries, for Matcher-type and LeafMatcher-type matchers.                *)
+(* "Selects" is decided per entry class (ScanSelect.tla): the layers of the *)
+(* defects the (pre-)certificate carries - clean / tolerable defects only, *)
+(* of one layer or of several at once / a fatal defect, alone or in         *)
+(* company -, for X.509 and precert entries, for Matcher-type and          *)
+(* LeafMatcher-type matchers.                                              *)
 (***************************************************************************)
 EXTENDS Fetcher, ScanSelect
 
